@@ -459,7 +459,7 @@ func (s *c12Sorter) sortedByIndexOrder(f *c12Fn, call *ast.CallExpr, fn *types.F
 	if cmp == nil || namedPath(cmp.elem) != core.ModulePath+".Update" {
 		return nil
 	}
-	key := fmt.Sprintf("order %p", cmp.body)
+	key := fmt.Sprintf("order %p %p", cmp.body, call)
 	if v, ok := s.memo[key]; ok {
 		if v == 1 {
 			return operand
